@@ -57,6 +57,22 @@ Proof.
   intros (n1 & v1 & H1) (n2 & v2 & H2). exists (Nat.max n1 n2), (v1 ++ v2). cbn [seq_ev].
   rewrite (up _ n2 _ _ _ H1), (ups _ n1 _ _ _ H2). reflexivity.
 Qed.
+Lemma seq_ev_app (f : expr -> nat -> option out) l1 : forall l2 p p1 p2 f1 f2 v1 v2,
+  seq_ev f l1 p = Some (Succ p1 f1, v1) -> seq_ev f l2 p1 = Some (Succ p2 f2, v2) ->
+  seq_ev f (l1 ++ l2) p = Some (Succ p2 (f1 ++ f2), v1 ++ v2).
+Proof.
+  induction l1 as [|e l1 IH]; intros l2 p p1 p2 f1 f2 v1 v2 H1 H2; cbn [seq_ev app] in *.
+  - inv H1. exact H2.
+  - destruct (f e p) as [[[|q fq] vq]|]; try discriminate.
+    destruct (seq_ev f l1 q) as [[[|q' fq'] vq']|] eqn:E; try discriminate. inv H1.
+    rewrite (IH l2 _ _ _ _ _ _ _ E H2). rewrite !app_assoc. reflexivity.
+Qed.
+Lemma oks_app l1 l2 p p1 p2 f1 f2 : oks l1 p p1 f1 -> oks l2 p1 p2 f2 -> oks (l1 ++ l2) p p2 (f1 ++ f2).
+Proof.
+  intros (n1 & v1 & H1) (n2 & v2 & H2). exists (Nat.max n1 n2), (v1 ++ v2).
+  eapply seq_ev_app; [eapply (seq_ev_mono _ _ _ _ _ _ H1)|apply (ups _ n1 _ _ _ H2)].
+  Unshelve. intros. eapply peg_ev_mono; [|eassumption]. lia.
+Qed.
 Lemma kos_head e es p : ko e p -> kos (e :: es) p.
 Proof. intros (n & v & H). exists n, v. cbn [seq_ev]. rewrite H. reflexivity. Qed.
 Lemma kos_tail e es p p1 f1 : ok e p p1 f1 -> kos es p1 -> kos (e :: es) p.
@@ -193,6 +209,8 @@ Lemma Ts_nil p t : Ts [] p p [] t t.
 Proof. exists []. split; [apply oks_nil|reflexivity]. Qed.
 Lemma Ts_cons e es p p1 p2 e1 e2 t t1 t2 : T e p p1 e1 t t1 -> Ts es p1 p2 e2 t1 t2 -> Ts (e :: es) p p2 (e1 ++ e2) t t2.
 Proof. intros (f1 & O1 & H1) (f2 & O2 & H2). exists (f1 ++ f2). split; [eapply oks_cons; eassumption|eapply tr_app; eassumption]. Qed.
+Lemma Ts_app l1 l2 p p1 p2 e1 e2 t t1 t2 : Ts l1 p p1 e1 t t1 -> Ts l2 p1 p2 e2 t1 t2 -> Ts (l1 ++ l2) p p2 (e1 ++ e2) t t2.
+Proof. intros (f1 & O1 & H1) (f2 & O2 & H2). exists (f1 ++ f2). split; [eapply oks_app; eassumption|eapply tr_app; eassumption]. Qed.
 Lemma T_seq es p p' evs t t' : Ts es p p' evs t t' -> T (ESeq es) p p' evs t t'.
 Proof. intros (f & O & H). exists f. split; [apply ok_seq; exact O|exact H]. Qed.
 Lemma Ta_head e es p p' evs t t' : T e p p' evs t t' -> Ta (e :: es) p p' evs t t'.
